@@ -110,6 +110,11 @@ def scenario_projects() -> List[Dict[str, Any]]:
         U("ck.api", "import ck as m_ck\nclass C(m_ck.K):\n    '''c'''\n"),
         U("ck.d", "from ck.api import C as C_r\n__all__ = ['C_r']\n"),
     ], [])
+    # reStructuredText footnote: docutils writes the back-link without going through pydoctor's starttag()
+    add("rst-footnote", [
+        U("fn", "\"\"\"\nText with a footnote [1]_ and a `reference <fn.f>`_.\n\n.. [1] The note.\n\"\"\"\n"
+                "__docformat__ = 'restructuredtext'\ndef f():\n    \"\"\"Section\n    =======\n\n    body, see `fn`.\n    \"\"\"\n"),
+    ], [])
     # a re-exported function keeps the linker (and its page) of the module it was defined in
     add("reexported-function-context", [
         U("rx", "'''pkg'''\nfrom ._impl import api\n__all__ = ['api']\n", True),
@@ -232,9 +237,29 @@ def random_options(rng) -> Dict[str, Any]:
             "nosidebar": rng.random() < 0.1}
 
 
-def make_cases(rng, n_random: int, rule_lists: int = 1) -> List[Dict[str, Any]]:
+def real_package_cases(rng) -> List[Dict[str, Any]]:
+    """real packages of the quantifier: parts of pydoctor itself, a stdlib package, a site package"""
+    import json as _json
+    from .core import REPO
+    pk = [(str(REPO / "pydoctor" / "templatewriter"), "epytext"), (str(REPO / "pydoctor" / "epydoc"), "epytext"),
+          (os.path.dirname(_json.__file__), "plaintext")]
+    try:
+        import attr as _attr
+        pk.append((os.path.dirname(_attr.__file__), "restructuredtext"))
+    except Exception:
+        pass
+    rules = [[], ["HIDDEN:**._*"], ["HIDDEN:*.*.[a-m]*", "PUBLIC:**.__init__"], ["PRIVATE:**.[a-f]*", "HIDDEN:**.*er"]]
+    cases = []
+    for path, fmt in pk:
+        if os.path.isdir(path):
+            cases.append({"name": "real:" + os.path.basename(path), "units": [], "path": path, "docformat": fmt,
+                          "privacy": rng.choice(rules), "opts": random_options(rng)})
+    return cases
+
+
+def make_cases(rng, n_random: int, rule_lists: int = 1, scenarios: bool = True) -> List[Dict[str, Any]]:
     cases: List[Dict[str, Any]] = []
-    for sc in scenario_projects():
+    for sc in (scenario_projects() if scenarios else []):
         cases.append({"name": sc["name"], "units": sc["units"], "privacy": sc["privacy"],
                       "opts": {"theme": rng.choice(THEMES), "expand": rng.choice([1, 2, 3]), "toc": 6, "nosidebar": False}})
         # the same project under the default rules (no hidden object): baseline for the scenario
@@ -255,7 +280,11 @@ def _units_payload(units: Sequence[Unit]) -> Dict[str, str]:
 
 
 def case_payload(case: Dict[str, Any]) -> Dict[str, Any]:
-    return {"name": case["name"], "units": _units_payload(case["units"]), "privacy": case["privacy"], "opts": case["opts"]}
+    p = {"name": case["name"], "units": _units_payload(case["units"]), "privacy": case["privacy"], "opts": case["opts"]}
+    if case.get("path"):
+        p["path"] = case["path"]
+        p["docformat"] = case.get("docformat", "epytext")
+    return p
 
 
 def case_from_payload(p: Dict[str, Any]) -> Dict[str, Any]:
@@ -265,7 +294,11 @@ def case_from_payload(p: Dict[str, Any]) -> Dict[str, Any]:
         q = k.rstrip("/")
         units.append(Unit(q, pkg, src, q.rpartition(".")[0] or None))
     units.sort(key=lambda u: (u.qname.count("."), u.qname))
-    return {"name": p.get("name", "replay"), "units": units, "privacy": p.get("privacy", []), "opts": p.get("opts", {})}
+    c = {"name": p.get("name", "replay"), "units": units, "privacy": p.get("privacy", []), "opts": p.get("opts", {})}
+    if p.get("path"):
+        c["path"] = p["path"]
+        c["docformat"] = p.get("docformat", "epytext")
+    return c
 
 
 def driver_args(case: Dict[str, Any], out: str, tops: Sequence[str]) -> List[str]:
@@ -274,6 +307,8 @@ def driver_args(case: Dict[str, Any], out: str, tops: Sequence[str]) -> List[str
             "--sidebar-expand-depth", str(o.get("expand", 1)), "--sidebar-toc-depth", str(o.get("toc", 6)), "-q"]
     if o.get("nosidebar"):
         args.append("--no-sidebar")
+    if case.get("docformat"):
+        args.append("--docformat=" + case["docformat"])
     for r in case["privacy"]:
         args.append("--privacy=" + r)
     return args + list(tops)
@@ -294,7 +329,7 @@ def run_case(case: Dict[str, Any]) -> Dict[str, Any]:
     res: Dict[str, Any] = {"case": case_payload(case)}
     try:
         os.chdir(tmp)
-        tops = write_tree(case["units"], os.path.join(tmp, "src"))
+        tops = [case["path"]] if case.get("path") else write_tree(case["units"], os.path.join(tmp, "src"))
         out = os.path.join(tmp, "out")
         driver.make = make
         try:
@@ -909,6 +944,9 @@ def _canon(items) -> str:
 # model sections that are compared as a union with one crawl section
 UNIONS = {"xref": ("docxref", "annxref"), "modindex": ("modindex-root", "modindex")}
 MODEL_ONLY = ("dead", "hiddenlinks", "unmarked")
+# for real packages the harness cannot predict what docstrings, fields and expressions link to: these sections
+# are left to the direct oracles there
+TEXT_DEPENDENT = ("xref", "sumcopy", "modindex-sum", "classindex-sum", "alldocs-sum", "classsig", "extra", "dead-set")
 
 
 def impl_sections(res: Dict[str, Any]) -> Dict[str, str]:
@@ -1150,11 +1188,12 @@ def _model_dead_set(items: str) -> List[str]:
     return out
 
 
-def crawl_and_compare(ctx, n_random: int, rule_lists: int, extra_cases: Sequence[Dict[str, Any]] = ()) -> List[Dict[str, Any]]:
+def crawl_and_compare(ctx, n_random: int, rule_lists: int, extra_cases: Sequence[Dict[str, Any]] = (),
+                      scenarios: bool = True) -> List[Dict[str, Any]]:
     """generate, run pydoctor, crawl, compare every producer section with the Lean model.
     Returns the results (each with res['truth'], res['model'] = parsed model sections or None)."""
     from .core import Infra, REPO
-    cases = list(extra_cases) + make_cases(ctx.rng, n_random, rule_lists)
+    cases = list(extra_cases) + make_cases(ctx.rng, n_random, rule_lists, scenarios)
     jobs = int(os.environ.get("VERIF_JOBS", "16"))
     results = run_cases(cases, jobs=jobs)
     good = [r for r in results if "facts" in r]
@@ -1190,6 +1229,8 @@ def crawl_and_compare(ctx, n_random: int, rule_lists: int, extra_cases: Sequence
         im["dead-set"] = _canon(r["crawl"]["pages"][fn]["page"] + ">" + canon_href(href)
                                 for fn, prod, href, label, why in dead_links(r) if prod != "inhierarchy")
         for sec in sorted(set(ms) | set(im)):
+            if r["case"].get("path") and sec in TEXT_DEPENDENT:
+                continue
             a, b = ms.get(sec, ""), im.get(sec, "")
             ctx.traces_validated += 1
             if a.strip():
